@@ -250,7 +250,13 @@ WiringPortRef wire_node(Scope &sc, const JV &st, std::vector<WiringPortRef> ins)
     m.display_name = "hv_node";
     if (!ins.empty()) {
         std::vector<std::pair<std::string, const TSValueTypeMetaData *>> f;
-        for (std::size_t i = 0; i < ins.size(); ++i) f.emplace_back("i" + std::to_string(i), ins[i].schema);
+        const bool as_ref = st.bool_or("as_ref", false);
+        for (std::size_t i = 0; i < ins.size(); ++i) {
+            // a consumer of a reference-shaped port reads THROUGH the reference unless it asks for the REF itself
+            const TSValueTypeMetaData *fs = ins[i].schema;
+            if (fs != nullptr && fs->kind == TSTypeKind::REF && !as_ref) fs = fs->referenced_ts();
+            f.emplace_back("i" + std::to_string(i), fs);
+        }
         m.input_schema = reg.un_named_tsb(f);
     }
     if (cfg->has_out) m.output_schema = cfg->out_schema;
